@@ -252,6 +252,10 @@ def run(ctx):
     except Exception as e:
         ctx.observe("python_int_altitude_accepted", f"raises {type(e).__name__}")
 
+    if ctx.thorough():
+        from .. import repotests
+
+        repotests.run(ctx, "C19")
     ctx.count("contracts", ncontract["n"])
     ctx.observe("boundary_switch_altitudes_km", zb)
     for m in ("roundtrip-z", "roundtrip-p", "positive", "monotone", "endpoints", "scalar-path", "copies", "abs-ref", "contracts"):
